@@ -29,6 +29,8 @@ T = {
          "The same world (mask bits, scales, values, identical random draws relative to the origin) is built at o and at o+d with tiny, order-of-scale, large (100 pixel scales), integer- and half-integer-pixel translations; ~45 public results per pair (grids, derived masks, zoom, padding, over-sampling, border relocation, overlay and Hilbert meshes, masked / noise-scaled / over-sampled / trimmed / simulated datasets, S/N-limited noise maps, pixel indexes of translated points, mapper tables and matrices) must translate by exactly d or stay unchanged; floating-point ties (overlay points on pixel boundaries, degenerate triangulations) are detected independently and counted as don't-care. Exploration.", "DESIGN.md 3/C12"),
  "C13": ("runtime monitoring: the real TransformerDFT / transformer_util / InversionInterferometerMapping executed next to a dense reference operator exp(-2 pi i (x u + y v)); adjoint inner-product identity",
          "Seeded masks, anisotropic scales, origins and baseline sets (zero and duplicate baselines, up to 1e6 wavelengths) are transformed by the real code with and without preloaded tables, for slim- and native-stored signed images and four kinds of mapping matrix (tiny, signed, sparse); visibilities, transformed matrices, the adjoint image (also via <AI,V>=<I,A^H V>) and the interferometer data vector / curvature matrix / mapped data are compared with the dense operator built from the C02 pixel-centre formula. pylops is replaced by the minimal base-class stand-in the property allows. Exploration.", "DESIGN.md 3/C13"),
+ "C15": ("runtime monitoring: metamorphic comparison of preloaded vs fresh inversions over slot subsets and reuse sequences, byte fingerprints of the Preloads object, sys.monitoring call counters proving each slot short-circuited",
+         "For seeded inversion inputs in both formalisms every subset of the five public preload slots (8 representative subsets quick, all 32 thorough), filled from a separate identical computation on a twin dataset, is shared by three successive inversions on fresh dataset objects: all outputs must equal the fresh computation, reuses must be bit-identical, the preloaded curvature matrix and every other slot must keep their bytes, call counters must show that the replaced computation did not run, the factory's formalism choice (via settings or preloads) must not change values and a w_tilde preloaded for another noise map must be rejected. Exploration.", "DESIGN.md 3/C15"),
 }
 REASON_WIP = "check not built yet in this revision (work in progress; the property is decidable by runtime monitoring, see DESIGN.md section 3)"
 ALL = ["C%02d" % i for i in range(1, 21)]
